@@ -204,19 +204,25 @@ public:
 
     void read_palette()
     {
-        int entries = this->_info._num_colors;
+        // only images with 1, 4 or 8 bits per pixel have a palette
+        std::size_t const max_entries = std::size_t( 1 ) << this->_info._bits_per_pixel;
+        std::size_t entries = this->_info._num_colors;
 
         if( entries == 0 )
         {
-            entries = 1u << this->_info._bits_per_pixel;
+            entries = max_entries;
         }
+
+        io_error_if( entries > max_entries
+                   , "Invalid number of colors in BMP file."
+                   );
 
         _palette.resize( entries, rgba8_pixel_t(0, 0, 0, 0));
 
         // the colour table follows the info header, whatever its size (40, 12, or 108/124 for V4/V5)
         _io_dev.seek( static_cast< long >( bmp_header_size::_size + _info._header_size ));
 
-		for( int i = 0; i < entries; ++i )
+        for( std::size_t i = 0; i < entries; ++i )
         {
             get_color( _palette[i], blue_t()  ) = _io_dev.read_uint8();
             get_color( _palette[i], green_t() ) = _io_dev.read_uint8();
@@ -230,6 +236,17 @@ public:
             }
 
         } // for
+    }
+
+    /// Returns the palette entry of a pixel value.
+    /// The palette may have less entries than the pixels have values.
+    rgba8_pixel_t const& palette_color( std::size_t index ) const
+    {
+        io_error_if( index >= _palette.size()
+                   , "Pixel refers to a color outside of the palette of the BMP file."
+                   );
+
+        return _palette[ index ];
     }
 
     /// Reads the color masks of a bit-field image.
